@@ -13,7 +13,7 @@ import (
 func init() {
 	core.Register(&core.Rule{
 		Name: "R-DFAFAIL",
-		Doc: "A lazy DFA that gives up hands the search over, it does not answer from what it has seen: in package dfa/lazy, on the branch taken when determinize returns an error (determinisation limit, state limit, cache full beyond the clear limit), every path to a return either goes through a call of the NFA fallback (nfaFallback*, a PikeVM search) or belongs to the cache-cleared recovery (isCacheCleared: the scan restarts and goes on). Returning the match end recorded so far, or 'no match', turns 'I cannot go on' into an answer: the greedy continuation of the match is lost (C12: limits change speed only; C14: exact or declined).",
+		Doc: "A lazy DFA that gives up hands the search over, it does not answer from what it has seen: in package dfa/lazy, on the branch taken when determinize returns an error (determinisation limit, state limit, cache full beyond the clear limit), every path ends in a return that goes through a call of the NFA fallback (nfaFallback*, a PikeVM search) or hands the error on; no path leaves the branch back into the scan loop. Returning the match end recorded so far, or 'no match', turns 'I cannot go on' into an answer: the greedy continuation of the match is lost; restarting from a start state at the current position after the cache was cleared (the former isCacheCleared recovery of six scans) drops the threads of the match in flight: c[ab]{20}a[ab]*$ on 'c' + 16k random a/b had Match false under the default 2 MB cache => fixed (C12: limits change speed only; C14: exact or declined).",
 		Min: 8, NeedSSA: true,
 		Run: func(p *core.Prog) *core.RuleResult {
 			res := &core.RuleResult{}
@@ -92,13 +92,6 @@ func init() {
 													}
 													return
 												}
-												if cc != nil && cc.Name() == "isCacheCleared" {
-													// the recovery branch: whatever follows on its true edge is the restart logic
-													if len(x.Succs) == 2 {
-														dfs(x.Succs[1], cleared)
-													}
-													return
-												}
 											}
 											if r, ok := in2.(*ssa.Return); ok {
 												// returning the error itself is declining
@@ -114,6 +107,10 @@ func init() {
 										for _, s := range x.Succs {
 											if errB.Dominates(s) || s == errB {
 												dfs(s, cleared)
+											} else if bad == "" {
+												// the branch is left without a return: the scan goes on (a restart from a start state after the
+												// cache was cleared: the threads of the match in flight are gone)
+												bad = "(the error branch is left and the scan goes on: whatever state it resumes from, the threads of the match in flight when determinize failed are lost)"
 											}
 										}
 									}
@@ -122,10 +119,10 @@ func init() {
 									}
 									if bad == "" {
 										o.Status = core.Discharged
-										o.Detail = "every return on the error branch goes through the NFA fallback, returns the error, or belongs to the cache-cleared restart"
+										o.Detail = "every path of the error branch ends in a return through the NFA fallback or hands the error on; none goes back into the scan"
 									} else {
 										o.Status = core.Violated
-										if strings.Contains(bad, "(the fallback") {
+										if strings.Contains(bad, "(the fallback") || strings.Contains(bad, "(the error branch") {
 											o.Detail = "on the branch taken when determinize fails: " + bad
 										} else {
 											o.Detail = fmt.Sprintf("on the branch taken when determinize fails, the return at %s is reached without the NFA fallback: the DFA answers from the progress it had made (e.g. the first match end) although it could not go on", bad)
